@@ -21,6 +21,8 @@ from .astutil import walk_own, U
 def _assigned_names(node):
     out = set()
     for n in walk_own(node):
+        if isinstance(n, ast.FunctionDef) and n is not node:
+            out.add(n.name)
         tg = []
         if isinstance(n, ast.Assign):
             tg = n.targets
@@ -118,10 +120,18 @@ class _Rename(ast.NodeTransformer):
         return n
 
     def visit_FunctionDef(self, n):
+        # a closure defined in the spliced body: its free variables are the helper's, so they are renamed / substituted too
+        bound = {p.arg for p in n.args.posonlyargs + n.args.args + n.args.kwonlyargs} | _assigned_names(n)
+        inner = _Rename({k: v for k, v in self.names.items() if k not in bound}, {k: v for k, v in self.subst.items() if k not in bound})
+        n.body = [inner.visit(st) for st in n.body]
+        if n.name in self.names:
+            n.name = self.names[n.name]
         return n
 
     def visit_Lambda(self, n):
-        self.generic_visit(n)
+        bound = {p.arg for p in n.args.posonlyargs + n.args.args + n.args.kwonlyargs}
+        inner = _Rename({k: v for k, v in self.names.items() if k not in bound}, {k: v for k, v in self.subst.items() if k not in bound})
+        n.body = inner.visit(n.body)
         return n
 
 
@@ -321,6 +331,20 @@ def simplify(stmts, nonnull):
             st.body = simplify(st.body, nonnull)
             st.orelse = simplify(st.orelse, nonnull)
         out.append(st)
+    # a, b = x, y  ->  a = x; b = y   (no target is read by any of the values)
+    split = []
+    for st in out:
+        if isinstance(st, ast.Assign) and len(st.targets) == 1 and isinstance(st.targets[0], ast.Tuple) and isinstance(st.value, ast.Tuple) \
+                and len(st.targets[0].elts) == len(st.value.elts) and all(isinstance(t, ast.Name) for t in st.targets[0].elts):
+            tn = {t.id for t in st.targets[0].elts}
+            if not (tn & _used_names(st.value)) and len(tn) == len(st.targets[0].elts):
+                for t, v in zip(st.targets[0].elts, st.value.elts):
+                    if t.id == "_":
+                        continue
+                    split.append(ast.Assign(targets=[ast.Name(id=t.id, ctx=ast.Store())], value=v, lineno=getattr(st, "lineno", 0), col_offset=0))
+                continue
+        split.append(st)
+    out = split
     # merge re-definitions
     res = []
     for st in out:
@@ -489,6 +513,140 @@ def _hoist(st, repo, f, new_funcs, resolve_helper, bind_args, caller_names, coun
     return None
 
 
+# --------------------------------------------------------------------------- generators
+def _is_generator(fnode):
+    return any(isinstance(n, (ast.Yield, ast.YieldFrom)) for n in walk_own(fnode))
+
+
+def _desugar_yield_from(stmts, counter):
+    """`yield from X`  ->  `for _yf in X: yield _yf`"""
+    class T(ast.NodeTransformer):
+        def visit_FunctionDef(self, n):
+            return n
+
+        def visit_Expr(self, n):
+            if isinstance(n.value, ast.YieldFrom):
+                counter[0] += 1
+                v = f"_yf{counter[0]}"
+                return ast.For(target=ast.Name(id=v, ctx=ast.Store()), iter=n.value.value, orelse=[], lineno=n.lineno, col_offset=0,
+                               body=[ast.Expr(value=ast.Yield(value=ast.Name(id=v, ctx=ast.Load())))])
+            return n
+    out = []
+    for st in stmts:
+        r = T().visit(st)
+        out.append(r)
+    return out
+
+
+def _yield_sites(stmts, depth=0, last_in_loop=True, out=None):
+    """[(statement list, index, loop depth, yield is the last statement of its innermost loop body)]"""
+    out = [] if out is None else out
+    for i, st in enumerate(stmts):
+        if isinstance(st, ast.Expr) and isinstance(st.value, ast.Yield):
+            out.append((stmts, i, depth, last_in_loop and i == len(stmts) - 1))
+        elif isinstance(st, (ast.For, ast.While)):
+            _yield_sites(st.body, depth + 1, True, out)
+            _yield_sites(st.orelse, depth, last_in_loop and i == len(stmts) - 1, out)
+        elif isinstance(st, ast.If):
+            _yield_sites(st.body, depth, last_in_loop and i == len(stmts) - 1, out)
+            _yield_sites(st.orelse, depth, last_in_loop and i == len(stmts) - 1, out)
+        elif isinstance(st, (ast.With, ast.Try)):
+            _yield_sites(st.body, depth, last_in_loop and i == len(stmts) - 1, out)
+        elif any(isinstance(x, (ast.Yield, ast.YieldFrom)) for x in ast.walk(st)):
+            out.append((stmts, i, -1, False))       # a yield in expression position: unsupported
+    return out
+
+
+def splice_generator_loop(h, binding, loop, caller_names, tag, nonnull=None, max_sites=24):
+    """`for T in h(args): BODY`  ->  h's body with every `yield e` replaced by `T = e; BODY`; None if outside the fragment:
+    h's yields are statements; BODY has no `break`; a top-level `continue` in BODY needs every yield to end its loop body"""
+    if loop.orelse:
+        return None
+    counter = [0]
+    body = [copy.deepcopy(st) for st in h.node.body if not (isinstance(st, ast.Expr) and isinstance(st.value, ast.Constant) and isinstance(st.value.value, str))]
+    body = _desugar_yield_from(body, counter)
+    if any(isinstance(n, ast.Return) and n.value is not None for n in walk_own(ast.Module(body=body, type_ignores=[]))):
+        return None
+
+    def own_flow(stmts, kinds):
+        """break/continue statements of BODY that would bind to an enclosing loop of the caller"""
+        found = []
+        for st in stmts:
+            if isinstance(st, kinds):
+                found.append(st)
+            elif isinstance(st, (ast.For, ast.While)):
+                found += own_flow(st.orelse, kinds)
+            elif isinstance(st, (ast.If, ast.With, ast.Try)):
+                for fld in ("body", "orelse", "finalbody"):
+                    found += own_flow(getattr(st, fld, []) or [], kinds)
+                for hd in getattr(st, "handlers", []):
+                    found += own_flow(hd.body, kinds)
+        return found
+    if own_flow(loop.body, (ast.Break,)):
+        return None
+    has_continue = bool(own_flow(loop.body, (ast.Continue,)))
+    # bind parameters / rename locals exactly as for ordinary helpers
+    pre = []
+    subst = {}
+    helper_assigned = _assigned_names(h.node)
+    for p, a in binding.items():
+        if _pure(a) and p not in helper_assigned:
+            subst[p] = a
+        else:
+            tmp = p if (p not in caller_names and p not in helper_assigned) else f"{p}__{tag}"
+            pre.append(ast.Assign(targets=[ast.Name(id=tmp, ctx=ast.Store())], value=copy.deepcopy(a), lineno=0, col_offset=0))
+            if tmp != p:
+                subst[p] = ast.Name(id=tmp, ctx=ast.Load())
+    renames = {}
+    for nm in helper_assigned:
+        if nm in binding:
+            if nm in subst and isinstance(subst[nm], ast.Name):
+                renames[nm] = subst[nm].id
+            continue
+        if nm in caller_names:
+            renames[nm] = f"{nm}__{tag}"
+    rn = _Rename(renames, dict(subst))
+    body = [rn.visit(st) for st in body]
+    sites = _yield_sites(body)
+    if not sites or len(sites) > max_sites or any(d < 0 for _, _, d, _ in sites):
+        return None
+    if has_continue and not all(last and d >= 1 for _, _, d, last in sites):
+        return None
+    # a bare `return` in the generator ends the iteration: only supported at the very end
+    body_stored = set()
+    for b_ in loop.body:
+        body_stored |= _assigned_names(ast.Module(body=[b_], type_ignores=[]))
+    for lst, i, d, last in sorted(sites, key=lambda x: -x[1]):
+        y = lst[i].value.value
+        y = y if y is not None else ast.Constant(value=None)
+        # bind the loop target(s) to the yielded value(s): by substitution when the value is cheap to repeat (or read once)
+        # and the body does not re-assign the target, otherwise by an assignment
+        pairs = None
+        if isinstance(loop.target, ast.Name):
+            pairs = [(loop.target.id, y)]
+        elif isinstance(loop.target, ast.Tuple) and isinstance(y, ast.Tuple) and len(loop.target.elts) == len(y.elts) and all(isinstance(t, ast.Name) for t in loop.target.elts):
+            pairs = [(t.id, v) for t, v in zip(loop.target.elts, y.elts)]
+        new_body = [copy.deepcopy(b) for b in loop.body]
+        pre_assign = []
+        if pairs is None:
+            pre_assign = [ast.Assign(targets=[copy.deepcopy(loop.target)], value=y, lineno=getattr(loop, "lineno", 0), col_offset=0)]
+        else:
+            sub = {}
+            for nm, v in pairs:
+                uses = sum(1 for b_ in new_body for x in ast.walk(b_) if isinstance(x, ast.Name) and x.id == nm and isinstance(x.ctx, ast.Load))
+                if nm not in body_stored and (_pure(v) or isinstance(v, ast.Constant) or uses <= 1):
+                    sub[nm] = v
+                else:
+                    pre_assign.append(ast.Assign(targets=[ast.Name(id=nm, ctx=ast.Store())], value=v, lineno=getattr(loop, "lineno", 0), col_offset=0))
+            if sub:
+                new_body = [_Rename({}, sub).visit(b_) for b_ in new_body]
+        lst[i:i + 1] = pre_assign + new_body
+    out = simplify(pre + body, nonnull or set())
+    for st in out:
+        ast.fix_missing_locations(st)
+    return out
+
+
 def inline_new_helpers(repo, new_funcs, resolve_helper, bind_args, max_rounds=2):
     """transform repo.funcs' ASTs in place; returns {caller qname: [helper qnames spliced]}"""
     report = {}
@@ -510,6 +668,20 @@ def inline_new_helpers(repo, new_funcs, resolve_helper, bind_args, max_rounds=2)
                     if isinstance(st, ast.Try):
                         for hd in st.handlers:
                             hd.body = rewrite(hd.body)
+                    if isinstance(st, ast.For) and isinstance(st.iter, ast.Call):
+                        h, skip = resolve_helper(repo, f, st.iter)
+                        if h is not None and h.qname in new_funcs and h.node is not f.node and _is_generator(h.node) and not h.node.decorator_list:
+                            b = bind_args(h, skip, st.iter)
+                            if b is not None:
+                                counter[0] += 1
+                                rep = splice_generator_loop(h, b, st, caller_names, f"g{counter[0]}", nonnull=nonnull_names(repo, f))
+                                if rep is not None:
+                                    for x in rep:
+                                        caller_names.update(_used_names(x))
+                                    out += rep
+                                    report.setdefault(q, []).append(h.qname)
+                                    changed = True
+                                    continue
                     call, context, target = None, None, None
                     if isinstance(st, ast.Expr) and isinstance(st.value, ast.Call):
                         call, context = st.value, "expr"
